@@ -61,7 +61,8 @@ def r1_indentation_everywhere(ctx):
         raise Undecided("get_load_data_modality_kwargs returns no dict "
                         "literal")
     d = {const_str(k): v for k, v in zip(table.keys, table.values)}
-    ctx.check("modality" in d and norm(d["modality"]) == "DEFAULT_MODALITY",
+    ctx.check("modality" in d and norm(d["modality"]) in (
+        "DEFAULT_MODALITY", "'force-distance'"),
               table, "modality = DEFAULT_MODALITY",
               "the loader kwargs do not select the default modality")
     ctx.check(literal(rd.assign("DEFAULT_MODALITY")) == "force-distance",
@@ -117,7 +118,9 @@ def r1_indentation_everywhere(ctx):
               "group's += (the spring-constant precondition is bypassed)")
     fw = [c for c in calls_in(lg) if call_name(c) == "load_data"]
     if fw:
-        kws = {k.arg: norm(k.value) for k in fw[0].keywords}
+        from ..astutil import bound_args
+        kws = {k: norm(v) for k, v in bound_args(
+            fw[0], rd.func("load_data")).items()}
         ctx.check(kws.get("callback") == "callback" and
                   kws.get("meta_override") == "meta_override", fw[0],
                   "callback and meta_override forwarded",
@@ -164,10 +167,8 @@ def r2_spring_constant(ctx):
         if (f"'spring constant' in {arg}.metadata", False) in tx and \
                 (f"'tip position' in {arg}", False) in tx and len(tx) == 2:
             # the test dominates the base append
-            t = conds[0].origin
-            tn = cfg.node_of_stmt(t)
-            if tn is not None and all(cfg.dominates(tn.id, s.id)
-                                      for s in sup):
+            # the refusal is never reached after the base append
+            if sup and all(r.id not in cfg.reach([s.id]) for s in sup):
                 ok = True
             ctx.check("MissingMetaDataError" in norm(r.ast), r.ast,
                       "refusal raises MissingMetaDataError",
